@@ -986,6 +986,8 @@ class SymMixin:
         if k == "str" and name == "encode":
             codec = (a[0] if a else kw.get("encoding", "utf-8"), a[1] if len(a) > 1 else kw.get("errors", "strict"))
             return Sym(("encode", t, codec), "bytes", codec=codec, len=Sym(("len", ("encode", t, codec)), "int", lo=0))
+        if k in ("int", "bool") and name == "bit_length" and not a and not kw:
+            return Sym(("bit_length", t), "int", lo=0)
         if k in ("int", "bool") and name == "to_bytes":
             length = a[0] if a else kw.get("length", 1)
             order = a[1] if len(a) > 1 else kw.get("byteorder", "big")
